@@ -426,6 +426,16 @@ impl<R: Read + Seek> Seek for CompressionLayerReader<'_, R> {
                         let inside_block = pos % u64::from(UNCOMPRESSED_DATA_SIZE);
                         let rounded_pos = pos - inside_block;
 
+                        if let CompressionLayerReaderState::Empty = self.state {
+                            // A previous operation failed midway and the inner
+                            // layer has been lost
+                            return Err(Error::WrongReaderState(
+                                "[Compression Layer] Should never happens, unless an error already occurs before"
+                                    .to_string(),
+                            )
+                            .into());
+                        }
+
                         // Move the underlayer at the start of the block
                         let old_state =
                             std::mem::replace(&mut self.state, CompressionLayerReaderState::Empty);
